@@ -80,10 +80,13 @@ def observeMsg {α} (I : Impl α) (x : α) : Res Obs := do
   let st ← toStructured I x
   let oraw ← toOther I rawFactory x
   let ostr ← toOther I structuredFactory x
+  let fraw ← fromOther rawFactory I x
+  let ffrn ← fromOther rawFactory I x          -- a foreign byte-preserving factory behaves like Raw's
+  let fstr ← fromOther structuredFactory I x
   .ok (([I.status x, I.d1 x, I.d2 x] : Obs) ++ bytesObs tb ++
        ([t.toU8, sup.code, main.code, cOpt ch, cOpt key, cOpt vel, cOpt cn, cOpt cv, cOpt pn, cOpt pa, cOpt pb,
         cBool n, cBool non, cBool noff, t.superType.code, t.superType.mainCategory.code] : Obs) ++
-       smsgObs st ++ bytesObs oraw ++ smsgObs ostr)
+       smsgObs st ++ bytesObs oraw ++ smsgObs ostr ++ bytesObs fraw ++ bytesObs ffrn ++ smsgObs fstr)
 
 /-- the same vector from the executable specification; `canonical` = the implementation reports
     information-free data bytes as zero (StructuredShortMessage) -/
@@ -94,6 +97,7 @@ def specMsg (b : Bytes) (canonical : Bool) : Obs :=
    cOpt (specKey b), cOpt (specVelocity b), cOpt (specControllerNumber b), cOpt (specControlValue b),
    cOpt (specProgramNumber b), cOpt (specPressure b), cOpt (specPitchBend b), cBool (specIsNote b),
    cBool (specIsNoteOn b), cBool (specIsNoteOff b), (specFuzzy b.status).code, (specMain b.status).code] : Obs) ++
-  smsgObs (specStructured b) ++ bytesObs own ++ smsgObs (specStructured b)
+  smsgObs (specStructured b) ++ bytesObs own ++ smsgObs (specStructured b) ++
+  bytesObs own ++ bytesObs own ++ smsgObs (specStructured b)
 
 end Midi.Driver
